@@ -18,7 +18,7 @@ type Codec = remoc::codec::Default;
 
 // ------------------------------------------------------------------------------------------------
 #[derive(Debug, Clone)]
-enum Op {
+pub enum Op {
     PushBack(u64),
     PushFront(u64),
     PopBack,
@@ -46,7 +46,7 @@ fn us(x: u128) -> Option<usize> {
     }
 }
 
-fn decode_ops(inp: &[u128]) -> Option<Vec<Op>> {
+pub fn decode_ops(inp: &[u128]) -> Option<Vec<Op>> {
     let mut pos = 0;
     let mut ops = Vec::new();
     while pos < inp.len() {
@@ -100,7 +100,7 @@ fn decode_ops(inp: &[u128]) -> Option<Vec<Op>> {
     Some(ops)
 }
 
-fn enc_event(e: &VecDequeEvent<u64>, out: &mut Vec<u128>) {
+pub fn enc_event(e: &VecDequeEvent<u64>, out: &mut Vec<u128>) {
     match e {
         VecDequeEvent::PushBack(v) => out.extend([1, *v as u128]),
         VecDequeEvent::PushFront(v) => out.extend([2, *v as u128]),
@@ -135,7 +135,7 @@ fn enc_events(es: &[VecDequeEvent<u64>], out: &mut Vec<u128>) {
 }
 
 /// Applies one mutator; returns the branch label.  May panic (caught by the caller).
-fn apply(obs: &mut ObservableVecDeque<u64, Codec>, op: &Op) -> &'static str {
+pub fn apply(obs: &mut ObservableVecDeque<u64, Codec>, op: &Op) -> &'static str {
     let len = obs.len();
     match op {
         Op::PushBack(v) => {
@@ -308,7 +308,7 @@ fn panic_label(op: &Op, done: bool) -> &'static str {
 }
 
 /// Applies an event to a plain deque the way a consumer by hand would (independent of remoc's mirror).
-fn hand_apply(v: &mut VecDeque<u64>, complete: &mut bool, done: &mut bool, e: &VecDequeEvent<u64>) -> Result<(), u128> {
+pub fn hand_apply(v: &mut VecDeque<u64>, complete: &mut bool, done: &mut bool, e: &VecDequeEvent<u64>) -> Result<(), u128> {
     match e {
         VecDequeEvent::PushBack(x) => v.push_back(*x),
         VecDequeEvent::PushFront(x) => v.push_front(*x),
